@@ -85,6 +85,15 @@ def isWhitespace (c : Char) : Bool :=
 def isPlainQuotedChar (c : Char) : Bool :=
   c == ' ' || (!isWhitespace c && !isControl c && !isMeta c)
 
+/-- longest prefix of characters satisfying `p`, and the rest (the lexer's `while p(c) { push; skip }`). -/
+def spanP (p : Char → Bool) : List Char → List Char × List Char
+  | [] => ([], [])
+  | c :: r =>
+    if p c then
+      let q := spanP p r
+      (c :: q.1, q.2)
+    else ([], c :: r)
+
 /-! ## integers from digit strings (`parse_integer_by_radix`) -/
 
 def validIn (radix : Nat) (c : Char) : Bool :=
@@ -115,9 +124,9 @@ def expOfToken : List Char → Int
     `e = X - |F|`. (`lexical::parse` with the STANDARD format accepts exactly what the lexer
     assembles; only the VALUE is specified here.) -/
 def decOfToken (tok : List Char) : Nat × Int :=
-  let (ip, r1) := tok.span isDigit
+  let (ip, r1) := spanP isDigit tok
   let r1 := r1.drop 1                       -- the '.'
-  let (fp, r2) := r1.span isDigit
+  let (fp, r2) := spanP isDigit r1
   let ex : Int := match r2 with
     | [] => 0
     | _ :: ex => expOfToken ex            -- skip 'e' / 'E'
@@ -172,7 +181,7 @@ def isScalar (n : Nat) : Bool := n < 0xD800 || (0xDFFF < n && n ≤ 0x10FFFF)
 def escapeSeq (acc : Char → Bool) (radix : Nat) : List Char → Except Err (Nat × List Char)
   | [] => .error .eof
   | c :: r =>
-    let (ds, rest) := r.span acc
+    let (ds, rest) := spanP acc r
     match rest with
     | [] => .error .eof
     | t :: rest' =>
@@ -251,7 +260,7 @@ def radixConstant (isDig : Char → Bool) (radix : Nat) (start : Char) (r1 : Lis
   | [] => .error .eof
   | c :: _ =>
     if isDig c then
-      let (ds, rest) := r1.span isDig
+      let (ds, rest) := spanP isDig r1
       match parseRadix radix ds with
       | .ok n => .ok (.int n, rest)
       | .error _ => mkInt ['0'] rest         -- (`or_else` on ParseBigInt; unreachable for digits)
@@ -284,11 +293,11 @@ def exponentPart (tok : List Char) (ec : Char) (r1 : List Char) : LexRes :=
       | [] => mkDec tok [ec, c]
       | d :: _ =>
         if isDigit d then
-          let (ds, rest) := r2.span isDigit
+          let (ds, rest) := spanP isDigit r2
           if rest.isEmpty then .ok (.part (tokE ++ c :: ds), []) else mkDec (tokE ++ c :: ds) rest
         else mkDec tok (ec :: c :: r2)
     else if isDigit c then
-      let (ds, rest) := r1.span isDigit
+      let (ds, rest) := spanP isDigit r1
       if rest.isEmpty then .ok (.part (tokE ++ ds), []) else mkDec (tokE ++ ds) rest
     else mkDec tok (ec :: r1)
 
@@ -299,7 +308,7 @@ def afterInt (tok : List Char) (c : Char) (r : List Char) : LexRes :=
     | [] => mkInt tok ['.']
     | d :: r' =>
       if isDigit d then
-        let (ds, rest) := r'.span isDigit
+        let (ds, rest) := spanP isDigit r'
         let tokF := tok ++ '.' :: d :: ds
         match rest with
         | [] => .ok (.part tokF, [])
@@ -379,7 +388,7 @@ def nextNumberToken (strict : Bool) (s : List Char) : Except Err (FirstTok × Li
         | .error e => .error e
       else if isGraphicToken c then
         -- name_token: the maximal run of graphic token characters; end of text → error
-        let (run, rest) := r.span isGraphicToken
+        let (run, rest) := spanP isGraphicToken r
         if rest.isEmpty then .error .eof
         else if run == ['-'] then .ok (.minus, rest) else .ok (.notNumber, rest)
       else if c == '\'' then
@@ -393,6 +402,8 @@ def nextNumberToken (strict : Bool) (s : List Char) : Except Err (FirstTok × Li
 def two52 : Nat := 4503599627370496
 def infBits : Nat := 0x7FF0000000000000
 def signBit : Nat := 0x8000000000000000
+/-- the scale of the integer grid: every finite double is a multiple of `2^-1074` -/
+def scale : Nat := 2 ^ 1074
 
 /-- the value of the non-negative bit pattern `b`, scaled by `2^1074` (an integer):
     subnormals `f·2^-1074`, normals `(2^52+f)·2^(E-1075)`. `V infBits = 2^1024·2^1074`. -/
@@ -404,7 +415,7 @@ def V (b : Nat) : Nat :=
     patterns, a midpoint itself belonging to the even pattern; everything from the midpoint
     between the largest finite double and `2^1024` upwards goes to `infBits`. -/
 def rneOK (num den b : Nat) : Bool :=
-  let x2 := 2 * (num * 2 ^ 1074)
+  let x2 := 2 * (num * scale)
   decide (b ≤ infBits) &&
   (b == 0 ||
     (if b % 2 == 0 then decide ((V (b - 1) + V b) * den ≤ x2)
@@ -422,7 +433,7 @@ def floorBits (N : Nat) : Nat :=
 
 /-- executable round-to-nearest-even of `num/den` (`den > 0`) to a magnitude bit pattern. -/
 def rne (num den : Nat) : Nat :=
-  let X := num * 2 ^ 1074
+  let X := num * scale
   let b := floorBits (X / den)
   if b ≥ infBits then infBits
   else
